@@ -22,6 +22,7 @@ from oslo_utils import timeutils
 from oslo_utils import uuidutils
 import webob
 
+from placement.db import constants as db_const
 from placement import errors
 # NOTE(cdent): avoid cyclical import conflict between util and
 # microversion
@@ -289,6 +290,17 @@ def normalize_resources_qs_param(qs):
                    'amount >= 1. Got: %(amount)d.')
             msg = msg % {
                 'resource_name': rc_name,
+                'amount': amount,
+            }
+            raise webob.exc.HTTPBadRequest(msg)
+        if amount > db_const.MAX_INT:
+            # No inventory can hold more than a signed 32 bit total; larger
+            # values would only overflow the database driver's integers.
+            msg = ('Requested resource %(resource_name)s requires '
+                   'amount <= %(max)d. Got: %(amount)d.')
+            msg = msg % {
+                'resource_name': rc_name,
+                'max': db_const.MAX_INT,
                 'amount': amount,
             }
             raise webob.exc.HTTPBadRequest(msg)
